@@ -1,5 +1,6 @@
 import RbV.Ref.EditDist
 import RbV.Lemmas.UkkonenEq
+import RbV.Lemmas.EdTextbook
 import RbV.Lemmas.MyersStep
 /-!
 # C09 — approximate matchers and distance functions equal the edit-distance definition
@@ -27,6 +28,20 @@ open RbV.EditDist
 theorem ed_optimal (w : Nat → Nat → Nat) (p s : List Nat) :
     (∀ ops v, wcost w p s ops = some v → ed w p s ≤ v) ∧ (∃ ops, wcost w p s ops = some (ed w p s)) :=
   ⟨fun ops v h => ed_le_wcost w ops p s v h, ed_attained w p s⟩
+
+/-- base cases of the recursion: against the empty string the distance is the length -/
+theorem ed_base (w : Nat → Nat → Nat) (p s : List Nat) : ed w p [] = p.length ∧ ed w [] s = s.length :=
+  ⟨ed_nil_right w p, ed_nil_left w s⟩
+
+/-- the three-way minimum that defines `ed` is the textbook recursion: a pair of equivalent symbols (cost 0) is
+skipped, a non-equivalent pair costs 1 + the minimum over substitution, insertion, deletion -/
+theorem ed_textbook (eqv : Nat → Nat → Bool) (a b : Nat) (p s : List Nat) :
+    ed (unitW eqv) (a :: p) (b :: s) =
+      if eqv a b then ed (unitW eqv) p s
+      else 1 + min (ed (unitW eqv) p s) (min (ed (unitW eqv) p (b :: s)) (ed (unitW eqv) (a :: p) s)) := by
+  by_cases h : eqv a b
+  · simp only [h, if_true]; exact ed_match _ a b p s (by simp [unitW, h])
+  · simp only [h]; exact ed_mismatch _ a b p s (by simp [unitW, h])
 
 /-- a labelled alignment (Match only over equivalent symbols, Subst only over non-equivalent ones) with `v`
 non-match operations bounds the unit-cost distance -/
